@@ -158,7 +158,8 @@ def model(r, M=False):
         A = MatrixVariable("A", 2, 3)
         # views whose NAMES other models reuse for other elements: a row slice ("A[0,:]" whatever the columns) and a reversed vector
         e4 = A[0, 1:3].sum() * 2 + np.array([1.0, 2.0, 3.0]) @ v[::-1] + A[1, 0:2].dot(A[1, 1:3])
-        return dict(x=x, y=y, v=v, p=p, A=A, e1=e1, e2=e2, e3=e3, e4=e4)
+        wM = VectorVariable("w", 3)
+        return dict(x=x, y=y, v=v, p=p, A=A, e1=e1, e2=e2, e3=e3, e4=e4, w_a=wM, w_b=wM)
     x = Variable("x", lb=r.choice([None, -5.0, 1.0]), ub=r.choice([None, 9.0]))
     y = Variable("y")
     v = VectorVariable("x", r.choice([2, 3, 3, 4]))
@@ -172,7 +173,9 @@ def model(r, M=False):
     e4 = r.choice([A[0, 0:2].sum() * 2 + np.array([1.0, 2.0, 3.0]) @ w[0:3] + A[1, 0:2].dot(A[1, 0:2]),
                    A[0, 0:2].sum() + np.array([3.0, 1.0, 2.0]) @ w[:] + A[1, 1:3].sum(),
                    A[0, :].sum() + w.sum()])
-    return dict(x=x, y=y, v=v, p=p, A=A, e1=e1, e2=e2, e3=e3, e4=e4)
+    # other models may DECLARE a vector twice (two objects, equal names) and mix the two declarations
+    w_a, w_b = VectorVariable("w", 3), VectorVariable("w", 3)
+    return dict(x=x, y=y, v=v, p=p, A=A, e1=e1, e2=e2, e3=e3, e4=e4, w_a=w_a, w_b=(w_b if r.random() < 0.7 else w_a))
 
 
 def entries(Md, solve=True):
@@ -204,6 +207,11 @@ def entries(Md, solve=True):
     out["views"] = [float(C.compile_expression(Md["e4"], V4)(pt4)), float(Md["e4"].evaluate({t.name: pt4[k] for k, t in enumerate(V4)}))] + \
                    [float(t) for t in C.compile_gradient(Md["e4"], V4)(pt4)]
     out["grad_tree"] = [repr(AD.gradient(Md["e3"], w))[:200] for w in (x, y)]
+    wa, wb = Md["w_a"], Md["w_b"]
+    e5 = wa[0] * 3 + wa.dot(wa) + wa[1] * wa[2]
+    ptw = {"w[0]": 0.5, "w[1]": -1.25, "w[2]": 2.0}
+    out["grad_wrt_other_declaration"] = [float(AD.gradient(e5, wb[k]).evaluate(ptw)) for k in range(3)] + \
+                                        [float(t) for t in C.compile_gradient(e5, list(wb))(np.array([0.5, -1.25, 2.0]))]
     out["degree"] = [AN.compute_degree(Md["e1"]), AN.compute_degree(Md["e2"]), bool(AN.is_linear(Md["e2"])), AN.compute_degree(Md["e3"]),
                      bool(AN.is_quadratic(Md["e3"]))]
     if solve:
